@@ -103,10 +103,18 @@ func runC09(c *Ctx) {
 		names = append(names, n)
 	}
 	sort.Strings(names)
+	anchorFiles := map[string]bool{"code.go": true, "character.go": true, "pkg/cl/control.go": true, "pkg/cl/format.go": true, "runereader.go": true}
 	for _, n := range names {
 		fn := c.P.Funcs[n]
 		if pk[pkgShort(fn)] && isCallMethod(fn) {
 			roots = append(roots, fn)
+			continue
+		}
+		if fn.Pos().IsValid() && fn.Parent() == nil {
+			file := strings.TrimPrefix(c.P.SSA.Fset.Position(fn.Pos()).Filename, "/repo/")
+			if anchorFiles[file] && len(fn.Blocks) > 0 {
+				roots = append(roots, fn)
+			}
 		}
 	}
 	so := &vc.SolveOpts{TimeoutMs: 2000, RaceTimeout: 6 * time.Second, Models: true}
